@@ -23,6 +23,9 @@ PID = "C03"
 FORMS = {"PREFIX": "prefix", "INFIX": "infix", "POSTFIX": "postfix", "LEFT_FENCE": "lfence", "RIGHT_FENCE": "rfence"}
 CLASS_SYM = {"=": "=", "<": "<", "+": "+", "-": "-", "x": "×", ",": ",", "~": "¬", "!": "!", "!!": "!!", "(": "(", ")": ")", "?": "☺", "^": "∧", ";": ";", "|": "|", "||": "‖"}
 OPERANDS = "abcwxyz"
+# operands that look like chemical elements: the first parse runs with chemistry marks in place (a '-' '=' ':' between such letters is
+# looked up as a bond), and when the expression is then NOT accepted as chemistry the rows have to be parsed again without them
+ELEMENTS = "HCNOSP"
 CONTEXTS = ["top", "sqrt", "num", "exp", "cell", "under", "detsub"]
 EMBELLISHERS = ("msub", "msup", "msubsup", "munder", "mover", "munderover", "mmultiscripts")
 INVISIBLE = {"\u2061", "\u2062", "\u2063", "\u2064"}
@@ -50,13 +53,13 @@ EMBELLISH = {"under": "<munder>{}<mi>k</mi></munder>", "over": "<mover>{}<mtext>
              "sub": "<msub>{}<mi>k</mi></msub>"}
 
 
-def xml_of(seq, emb=None):
+def xml_of(seq, emb=None, operands=OPERANDS):
     """seq: list of 'a' (operand) or an operator string; emb: {index: kind of embellishment} - an embellished operator (an mo with
     limits or a subscript) IS that operator for the parser (get_possible_embellished_node), so the reference parse is the same."""
     out, k = [], 0
     for i, s in enumerate(seq):
         if s == "a":
-            out.append(f"<mi>{OPERANDS[k % len(OPERANDS)]}</mi>")
+            out.append(f"<mi>{operands[k % len(operands)]}</mi>")
             k += 1
         else:
             mo = "<mo>" + s.replace("&", "&amp;").replace("<", "&lt;").replace(">", "&gt;") + "</mo>"
@@ -69,6 +72,9 @@ def wrap(body, ctx):
     return {"top": f"<math>{body}</math>", "sqrt": f"<math><msqrt>{body}</msqrt></math>", "num": f"<math><mfrac>{row}<mn>7</mn></mfrac></math>",
             "exp": f"<math><msup><mi>q</mi>{row}</msup></math>", "cell": f"<math><mtable><mtr><mtd>{body}</mtd><mtd><mn>7</mn></mtd></mtr></mtable></math>",
             "under": f"<math><munder><mo>∑</mo>{row}</munder></math>",
+            # a radicand / numerator / exponent inside an expression that is not chemistry whatever the row looks like
+            "eqsqrt": f"<math><mi>x</mi><mo>=</mo><msqrt>{body}</msqrt></math>", "eqnum": f"<math><mi>x</mi><mo>=</mo><mfrac>{row}<mn>7</mn></mfrac></math>",
+            "plusexp": f"<math><mi>x</mi><mo>+</mo><msup><mi>q</mi>{row}</msup></math>",
             # three levels down, in a place the chemistry scan walks into: the subscript of a cell of a determinant (9b2141d)
             "detsub": f"<math><mo>|</mo><mtable><mtr><mtd><msub><mi>X</mi>{row}</msub></mtd><mtd><mn>7</mn></mtd></mtr></mtable><mo>|</mo></math>"}[ctx]
 
@@ -80,7 +86,8 @@ def locate(tree, ctx):
     root = only(tree)
     if ctx == "top":
         return root
-    want = {"sqrt": "msqrt", "num": "mfrac", "exp": "msup", "cell": "mtd", "under": "munder", "detsub": "msub"}[ctx]
+    want = {"sqrt": "msqrt", "num": "mfrac", "exp": "msup", "cell": "mtd", "under": "munder", "detsub": "msub", "eqsqrt": "msqrt", "eqnum": "mfrac",
+            "plusexp": "msup"}[ctx]
 
     def find(t):
         if t["tag"] == want:
@@ -93,9 +100,9 @@ def locate(tree, ctx):
     n = find(tree)
     if n is None:
         return None
-    if ctx in ("sqrt", "cell"):
+    if ctx in ("sqrt", "cell", "eqsqrt"):
         return only(n)
-    return n["kids"][0] if ctx == "num" else n["kids"][1] if len(n["kids"]) > 1 else None
+    return n["kids"][0] if ctx in ("num", "eqnum") else n["kids"][1] if len(n["kids"]) > 1 else None
 
 
 def row_tree(t, D):
@@ -267,11 +274,22 @@ def run(tier):
         if not at:
             continue
         cases.append((seq, wf, ctx, {r2.choice(at): r2.choice(sorted(EMBELLISH))}))
+    cases = [c + (OPERANDS,) for c in cases]
+    # element-like operands: the same well-formed rows, as radicand / numerator / exponent of an expression that is not chemistry
+    # (and, for the protocol of Chem.tla, at the places of the other contexts); judged like the others unless the expression was
+    # accepted as chemistry (chemistry is outside the plain class)
+    chem_ctx = ["eqsqrt", "eqnum", "plusexp", "sqrt", "num", "exp", "cell"]
+    n_el = 0
+    for i, (seq, wf, ctx, emb) in enumerate(base):
+        if wf is not True or sum(1 for x in seq if x == "a") < 2 or (tier == "quick" and i % 5 != 2):
+            continue
+        cases.append((seq, wf, chem_ctx[n_el % len(chem_ctx)], {}, ELEMENTS))
+        n_el += 1
     scripts = []
     for b in range(0, len(cases), 400):
         ops = [{"op": "set_rules_dir", "dir": "$RULES", "setup": True}, {"op": "events_on", "setup": True}]
-        for seq, wf, ctx, emb in cases[b:b + 400]:
-            ops.append({"op": "set_mathml", "mathml": wrap(xml_of(seq, emb), ctx)})
+        for seq, wf, ctx, emb, alpha in cases[b:b + 400]:
+            ops.append({"op": "set_mathml", "mathml": wrap(xml_of(seq, emb, alpha), ctx)})
             ops.append({"op": "drain"})          # the chem_scan event of this expression (Chem.tla / Trace_Chem.tla)
         scripts.append({"id": f"rows{b}", "ops": ops, "isolate_on_panic": True})
     results = C.run_mcv(scripts, wd, name="rows", timeout_ms=60000)
@@ -298,7 +316,7 @@ def run(tier):
     ci = 0
     for s, r in zip(scripts, results):
         for o, rr in zip(s["ops"][1:], r["results"][1:]):
-            seq, wf, ctx, emb = cases[ci]
+            seq, wf, ctx, emb, alpha = cases[ci]
             ci += 1
             if rr["r"] != "ok":
                 skipped["not-ok"] += 1      # a crash or an error on a row is C08's business
@@ -314,6 +332,9 @@ def run(tier):
             # heuristics outside the parser (the property does not define them): an identifier directly in front of '(' may be taken
             # for a function name; the chemistry pre-pass groups a degenerate '( op )'
             text = rr["v"]
+            if alpha is ELEMENTS and "data-chem" in text:
+                plain = 0           # accepted as chemistry: bonds are operators of their own
+                skipped["accepted-as-chemistry"] = skipped.get("accepted-as-chemistry", 0) + 1
             if "\u2061" in text or "&#x2061;" in text or "data-function-guess" in text:
                 plain = 0
                 skipped["function-guess"] += 1
@@ -335,7 +356,7 @@ def run(tier):
                     skipped["degenerate-fence"] += 1
                     break
             events.append({"toks": toks, "got": got, "wf": 0, "plain": plain, "heur": 0})     # well-formedness of generated rows is decided by the spec
-            back.append(("embellished-row" if emb else "row", o["mathml"], seq))
+            back.append(("embellished-row" if emb else "element-operand-row" if alpha is ELEMENTS else "row", o["mathml"], seq))
     n_generated = len(events)
     sev, sback = suite_rows(D, wd, tier)
     events += sev
